@@ -28,9 +28,9 @@ LEVEL_TEXT = ('Coq theorems over an executable Gallina model of the state tracki
               '_nickSetters, handler inventory, hostmask regex shape) and by a differential run after every message against the real Irc object.')
 LEVEL_NOTE = ('Trusted: Coq kernel, gen_tables.py, extraction + OCaml driver, the Python harness, the reference server as specification. '
               'The trace-level simulation theorem (induction over histories of any length with the lookup-level relation Inv, Inv => agree) is proved '
-              'for the steps CONNECT, TOPIC, single-target JOIN of another user, and the bot\'s own single-target JOIN into a channel nobody is on '
-              '(full burst); the step cases of PART, KICK, QUIT, NICK, MODE, CHGHOST, NAMES, WHO, reconnect, multi-target lists and the bot joining a '
-              'populated channel are NOT proved and rest on the per-handler theorems (all states) plus the differential run.')
+              'for the steps CONNECT, TOPIC, KICK (any victims), QUIT, NICK (incl. case-only and the bot\'s own), MODE (all accepted letters), CHGHOST, '
+              'WHO refresh, reconnect, PART (any channel list), single-target JOIN of another user, and the bot\'s own single-target JOIN into a channel nobody is on; '
+              'still outside: the bot joining a populated channel, NAMES refresh, multi-target JOIN lists -- those rest on the per-handler theorems plus the differential run.')
 TECHNIQUE = 'Coq proof (induction over lists/states) + regenerated tables + extracted reference server and bot model run beside the real Irc object'
 EXPLANATION = 'C10: bot model coq/C10/Bot.v, reference server coq/C10/Spec.v; theorems in coq/C10/Props.v'
 
